@@ -72,6 +72,7 @@ static void min_aggregate_case(const Pattern &p, int bs, unsigned min_aggr) { hx
     SCrs A=sym_matrix(p,false,true); for (int i=0;i<p.n;++i) hx::assume(hx::lt(scalar(0),A.at(i,i)));
     SCrs K; K.n=p.n*bs; K.m=p.m*bs; K.ptr.push_back(0); for (int i=0;i<p.n;++i) for (int r=0;r<bs;++r) { for (ptrdiff_t k=p.ptr[i];k<p.ptr[i+1];++k) { K.col.push_back(p.col[k]*bs+r); K.val.push_back(A.val[k]); } K.ptr.push_back(K.col.size()); }
     auto Km=hx::to_amgcl(K); co::pointwise_aggregates::params pb; pb.block_size=bs; std::shared_ptr<co::pointwise_aggregates> ag; try { ag=std::make_shared<co::pointwise_aggregates>(*Km,pb,min_aggr); } catch (const amgcl::error::empty_level&) { hx::count("empty level paths"); return; }
+    hx::require("a coarsening that returns normally has at least one aggregate (no aggregate left = empty_level)", ag->count>0); if (ag->count==0) return;
     std::vector<int> cnt(ag->count,0); bool range=true; for (int i=0;i<K.n;++i) { ptrdiff_t a=ag->id[i]; if (a>=0) { if ((size_t)a>=ag->count) range=false; else cnt[a]++; } } hx::require("aggregate ids are in [0,count) or negative", range); if (!range) return;
     bool big=true, nonempty=true; std::string w; for (size_t a=0;a<ag->count;++a) { if (cnt[a]==0) nonempty=false; /* scalar aggregate a belongs to pointwise aggregate a/bs: that one has cnt unknowns per component */ int unknowns=0; for (int r=0;r<bs;++r) unknowns+=cnt[(a/bs)*bs+r]; if (unknowns<(int)min_aggr) { big=false; if (w.empty()) w="aggregate "+std::to_string(a/bs)+" has "+std::to_string(unknowns)+" unknowns, min_aggregate="+std::to_string(min_aggr); } }
     hx::require("no empty aggregate after the removal of small aggregates (contiguous numbering)", nonempty); hx::require("every surviving aggregate has at least min_aggregate unknowns (rows for the local QR of the near-null-space vectors)", big, w); },coo); }
